@@ -84,5 +84,11 @@ C17Distinct == (lo = 1 /\ hi = NRows) =>
    \A i, j \in 0..9 : i < j => (PlainSig(i) # PlainSig(j)
        \/ Bad([prop |-> "C17", kind |-> "indistinct", a |-> LayoutNames[i + 1], b |-> LayoutNames[j + 1]]))
 
+(* TLC stops at the first violated invariant of a state, which would let a violation of one
+   property mask another property's violation in the same row: evaluate all of them (a tuple is
+   evaluated eagerly, each element printing its own report) and conjoin afterwards *)
+AllProps == LET r == << C08, C03, C09a, C09b, C09c, C10, C11, C12, C15, C16, C17, C17Distinct >>
+            IN  \A j \in 1..Len(r) : r[j]
+
 ASSUME Stats == Note("@@S", [rows |-> NRows, cells |-> NRows * 512, source |-> Source])
 =============================================================================
